@@ -34,6 +34,24 @@ class SimCancel(BaseException):
 _CANCEL_TOOL = 4
 
 
+_WITH_LINES = {}
+
+
+def _with_lines(code):
+    """Source lines of ``with`` headers.  CPython attributes the implicit ``__exit__(None, None, None)``
+    call of a normally ending block to the header line, *outside* the block's exception table: an
+    exception injected at that line event would skip ``__exit__`` - a leak no Python code can prevent
+    (the interpreter's own, long-known gap for asynchronous exceptions), so nothing is injected there;
+    the injection moves on to the next line event."""
+    ls = _WITH_LINES.get(code)
+    if ls is None:
+        import dis
+        ls = frozenset(i.positions.lineno for i in dis.get_instructions(code)
+                       if i.opname in ("BEFORE_WITH", "BEFORE_ASYNC_WITH") and i.positions and i.positions.lineno)
+        _WITH_LINES[code] = ls
+    return ls
+
+
 _INJECTABLE = {"SimCancel": SimCancel, "MemoryError": MemoryError, "RecursionError": RecursionError}
 
 
@@ -51,7 +69,7 @@ def _cancellable(sf, at, fn, *a, exc="SimCancel", **kw):
         if not code.co_filename.startswith(root):
             return mon.DISABLE
         st["n"] += 1
-        if st["n"] == at:
+        if st["n"] >= at and st["fired"] is None and line not in _with_lines(code):
             st["fired"] = "%s:%d" % (code.co_name, line)
             # SimCancel (a BaseException: Ctrl-C, time-out, cancelled job) or one of the two
             # exceptions the interpreter itself can raise at any point of Python code: MemoryError
